@@ -447,7 +447,7 @@ pub fn send_with_body(rb: attohttpc::RequestBuilder, body: &BodySpec) -> Sent {
                 mb = mb.with_text(k, v);
             }
             if let Some(d) = &data {
-                mb = mb.with_file(attohttpc::MultipartFile::new("upload", d).with_filename("f.bin"));
+                mb = mb.with_file(attohttpc::MultipartFile::new("upload", d).with_filename("f.bin").with_type("image/png").expect("valid mime"));
             }
             let r = match mb.build() {
                 Ok(m) => rb.body(m).send(),
